@@ -37,6 +37,8 @@ uint32_t generate_seed(uint32_t seed) {
     uint32_t a = 0x7AFB2C23ULL;
     uint32_t c = 0x894C3ULL;
     uint32_t new_seed = (a * seed + c);
+    if(new_seed == 0) /* state 0 means "not seeded" (time based): never produce it from a seed */
+      new_seed = c;
     return new_seed;
 }
 
